@@ -1139,6 +1139,7 @@ impl ElementRaw {
             }
         }
         self.content.clear();
+        self.file_membership.clear();
         self.parent = ElementOrModel::None;
     }
 
